@@ -14,7 +14,7 @@ from __future__ import annotations
 import z3
 
 from .values import (
-    BoundMethod, BuiltinVal, ClassVal, Closure, EnumVal, ExcVal, FuncVal, HDict, HInst, HList, HSymMap, HexStr,
+    BoundMethod, BuiltinVal, ClassVal, Closure, EnumVal, ExcVal, FuncVal, HAbstract, HDict, HInst, HList, HSymList, HSymMap, HexStr, SymEnum,
     LoweredSeq, ModuleVal, Opaque, Ref, Rope, SuperVal, SymBytes, SymSeq, Unsupported, is_intlike, is_sym, is_symbool, is_symint,
     to_z3bool, to_z3int,
 )
@@ -105,6 +105,8 @@ def do_binop(I, op, a, b, st, node=None):
             raise Unsupported(f"operator {op} on instance of {o.cls}", node)
         if isinstance(o, HList) and op == "Add" and isinstance(b, Ref) and isinstance(I.hget(st, b), HList):
             return V(I.alloc(st, HList(o.items + I.hget(st, b).items)), st)
+        if op == "Add" and isinstance(o, (HList, HSymList)) and isinstance(b, Ref) and isinstance(I.hget(st, b), (HList, HSymList)):
+            return V(I.alloc(st, symlist_concat(I, o, I.hget(st, b), st)), st)
         if isinstance(o, HList) and op == "Mult" and isinstance(b, int):
             return V(I.alloc(st, HList(o.items * b)), st)
         if isinstance(o, HDict) and op == "BitOr" and isinstance(b, Ref):
@@ -301,9 +303,67 @@ def seq_concat(I, a, b, st):
     return SymSeq(arr, 0, z3.simplify(to_z3int(la) + to_z3int(lb)))
 
 
+def symlist_concat(I, a, b, st):
+    """a ++ b where at least one side has symbolic length"""
+    if isinstance(a, HList) and isinstance(b, HSymList):
+        return HSymList(b.length, b.mk, tuple(a.items) + b.prefix, b.tail, b.what)
+    if isinstance(a, HSymList) and isinstance(b, HList):
+        return HSymList(a.length, a.mk, a.prefix, a.tail + tuple(b.items), a.what)
+    # both symbolic: only the length is tracked; reading an element is outside the subset
+    def mk(I2, st2, idx):
+        raise Unsupported("element of a concatenation of two lists of symbolic length")
+    return HSymList(to_z3int(a.length) + len(a.tail) + len(b.prefix) + to_z3int(b.length), mk, a.prefix, b.tail, a.what)
+
+
+def symlist_getitem(I, o, i, st, node=None):
+    """o[i] for a list of symbolic length: IndexError outside, prefix / generated element / tail inside"""
+    zi = to_z3int(i)
+    n = o.total()
+    out = []
+    for b, s in I.split(z3.And(zi >= -n, zi < n), st):
+        if not b:
+            out += E(I, "IndexError", s)
+            continue
+        for neg, s2 in I.split(zi < 0, s):
+            idx = z3.simplify(zi + n) if neg else zi
+            np_ = len(o.prefix)
+            # prefix
+            rest = [s2]
+            for k in range(np_):
+                nxt = []
+                for s3 in rest:
+                    for hit, s4 in I.split(idx == k, s3):
+                        if hit:
+                            out.append(("val", o.prefix[k], s4))
+                        else:
+                            nxt.append(s4)
+                rest = nxt
+            for s3 in rest:
+                for inmid, s4 in I.split(idx < np_ + to_z3int(o.length), s3):
+                    if inmid:
+                        j = z3.simplify(idx - np_)
+                        out.append(("val", o.mk(I, s4, j), s4))
+                        continue
+                    rest2 = [s4]
+                    for k in range(len(o.tail)):
+                        nxt = []
+                        for s5 in rest2:
+                            for hit, s6 in I.split(idx == np_ + to_z3int(o.length) + k, s5):
+                                if hit:
+                                    out.append(("val", o.tail[k], s6))
+                                else:
+                                    nxt.append(s6)
+                        rest2 = nxt
+    return out
+
+
 def do_augop(I, op, cur, v, st, node=None):
     if isinstance(cur, Ref):
         o = I.hget(st, cur)
+        if isinstance(o, (HList, HSymList)) and op == "Add" and isinstance(v, Ref) and isinstance(I.hget(st, v), HSymList) or isinstance(o, HSymList) and op == "Add":
+            other = I.hget(st, v) if isinstance(v, Ref) else HList(I.iterate(v, st, node))
+            st.heap[cur.oid] = symlist_concat(I, o, other, st)  # in place: the list object keeps its identity
+            return V(cur, st)
         if isinstance(o, HList) and op == "Add":
             items = I.iterate(v, st, node)
             I.hmut(st, cur).items.extend(items)
@@ -367,6 +427,8 @@ def identical(I, a, b, st):
         return False
     if isinstance(a, Ref) and isinstance(b, Ref):
         return a.oid == b.oid
+    if isinstance(a, SymEnum) or isinstance(b, SymEnum):
+        return symenum_equal(a, b)
     if isinstance(a, (EnumVal, ClassVal, FuncVal)) and type(a) is type(b):
         return a == b
     if isinstance(a, Ref) or isinstance(b, Ref):
@@ -376,10 +438,23 @@ def identical(I, a, b, st):
     return a is b
 
 
+def symenum_equal(a, b):
+    """enum members are singletons without a user __eq__: == and `is` coincide"""
+    if isinstance(b, SymEnum) and not isinstance(a, SymEnum):
+        a, b = b, a
+    if isinstance(b, SymEnum):
+        return (to_z3int(a.code) == to_z3int(b.code)) if a.cls == b.cls else False
+    if isinstance(b, EnumVal) and b.cls == a.cls:
+        return to_z3int(a.code) == a.members.index(b.name)
+    return False
+
+
 def equal(I, a, b, st, node=None):
     """a == b as bool or z3 Bool (no user __eq__)"""
     if a is None or b is None:
         return a is None and b is None
+    if isinstance(a, SymEnum) or isinstance(b, SymEnum):
+        return symenum_equal(a, b)
     if (is_intlike(a) or is_symbool(a)) and (is_intlike(b) or is_symbool(b)):
         if not is_sym(a) and not is_sym(b):
             return a == b
@@ -625,6 +700,8 @@ def do_getitem(I, c, i, st, node=None):
             return E(I, "KeyError", st, i)
         if isinstance(o, HList):
             return index_seq(I, o.items, i, st, node)
+        if isinstance(o, HSymList):
+            return symlist_getitem(I, o, i, st, node)
         if isinstance(o, HSymMap):
             out = []
             code = z3.Select(o.arr, to_z3int(i))
@@ -710,7 +787,12 @@ def index_seq(I, items, i, st, node=None):
 def do_setitem(I, c, i, v, st, node=None):
     if isinstance(c, Ref):
         o = I.hget(st, c)
+        if isinstance(o, HAbstract):
+            return [("next", None, st)]
         if isinstance(o, HDict):
+            if isinstance(i, (SymSeq, LoweredSeq, SymChar)):
+                st.heap[c.oid] = HAbstract("dict")  # contents unknown from here on; every later read is Unsupported
+                return [("next", None, st)]
             if is_sym(i):
                 raise Unsupported("store under a symbolic dictionary key", node)
             I.hmut(st, c).items[i] = v
@@ -1096,6 +1178,9 @@ def call_builtin(I, f, args, kwargs, st, node=None):
                 return V(_ast.literal_eval(args[0]), st)
             except (ValueError, SyntaxError):
                 return E(I, "ValueError", st)
+        if isinstance(args[0], (SymSeq, LoweredSeq)):
+            # text unknown: any literal value (opaque) or a rejection; callers may not look into the value
+            return V(Opaque("literal"), st.fork()) + E(I, "ValueError", st.fork()) + E(I, "SyntaxError", st.fork())
         raise Unsupported("literal_eval of a symbolic string", node)
     # ---------------- methods of builtin types
     if "." in name:
@@ -1125,6 +1210,8 @@ def builtin_len(I, v, st, node=None):
         o = I.hget(st, v)
         if isinstance(o, (HList, HDict)):
             return V(len(o.items), st)
+        if isinstance(o, HSymList):
+            return V(z3.simplify(o.total()), st)
         if isinstance(o, HInst):
             found = I.index.find_method(o.cls, "__len__")
             if found:
@@ -1224,6 +1311,12 @@ def call_method(I, typ, meth, recv, args, kwargs, st, node=None):
                 ax.append((bl <= k) == (ab < (1 << k)))
             st.pc.extend(ax)
             return V(bl, st)
+    if typ == "symlist":
+        o = I.hget(st, recv)
+        if meth == "append":
+            st.heap[recv.oid] = HSymList(o.length, o.mk, o.prefix, o.tail + (args[0],), o.what)
+            return V(None, st)
+        raise Unsupported(f"list.{meth} on a list of symbolic length", node)
     if typ == "list":
         o = I.hget(st, recv)
         if meth == "append":
